@@ -4,6 +4,14 @@ PROPS = {
     "C03": {
         "pkg": "p03",
         "level": "exploration",
+        "level_text": "Randomised and partly enumerated search for a counterexample: ~10^5 (quick) / ~10^6 (thorough) damaged programs per run, "
+                      "each checked against an executable oracle (no panic, no hang, program xor non-empty errors, token tiling and "
+                      "recomputed positions, every error located at an existing position and at the lexeme it quotes). Absence of a "
+                      "counterexample is evidence, not proof; totality over all strings cannot be enumerated.",
+        "level_note": "Trusts Go's runtime recover to observe panics, a 20 s watchdog for hangs, and the harness's own rune-based "
+                      "recomputation of line/column. Inputs are derived from the repository's own programs, so constructs absent from "
+                      "them are reached only through the substitution pool.",
+        "technique": "property-based testing: token-level mutation of corpus programs + exhaustive prefixes, validity-predicate oracle (rapid)",
         "tests": [
             {"name": "TestProp", "quick": {"shards": 8, "checks": 20000}, "thorough": {"shards": 16, "checks": 250000}},
             {"name": "TestPrefixes", "rapid": False, "quick": {"shards": 8}, "thorough": {"shards": 16}},
@@ -18,3 +26,12 @@ PROPS = {
                         "a hang is judged by a 20 s watchdog per input (inputs are < 10 KB, normal parse time < 1 ms)"],
     },
 }
+
+NOT_APPLICABLE = {}
+
+ENGINES = [
+    {"name": "harness", "path": "/verif/harness", "serves_properties": sorted(PROPS.keys()),
+     "kind_free_text": "Go module with rapid v1.3.0: generators, mutators, reference models, recording platform; driven by /verif/check"},
+]
+
+HOOK_COMMITS = []
